@@ -7,6 +7,8 @@ wt=$(mktemp -d /tmp/verif_seed.XXXXXX); rmdir "$wt"
 git -C /repo worktree add -q --detach "$wt" HEAD || exit 2
 trap 'git -C /repo worktree remove --force "$wt" 2>/dev/null; rm -rf "$wt"' EXIT
 tgt=$(cat "$d/demo_target.txt" 2>/dev/null | head -1 | tr -d '[:space:]'); tgt=${tgt:-src/lib.rs}
+feat=$(sed -n 2p "$d/demo_target.txt" 2>/dev/null | grep -o 'features: *[a-z-]*' | awk '{print $2}')
+FEAT=""; [ -n "$feat" ] && FEAT="--features $feat"
 inject() { python3 - "$wt/$tgt" "$d/demo.rs" <<'PY'
 import sys
 p,t=sys.argv[1],sys.argv[2]
@@ -18,7 +20,7 @@ cd "$wt"
 export CARGO_TARGET_DIR="$wt/target" CARGO_NET_OFFLINE=true
 # (c) demo without patch
 inject
-cargo test --offline -j 6 --lib seeded_ > "$wt/c.log" 2>&1; c=$?
+cargo test --offline -j 6 $FEAT --lib seeded_ > "$wt/c.log" 2>&1; c=$?
 git checkout -q -- .
 # (a) suite with patch
 git apply "$d/patch.diff" || { echo "patch does not apply"; exit 2; }
@@ -26,7 +28,7 @@ cargo test --offline -j 6 --workspace > "$wt/a.log" 2>&1; a=$?
 apass=$(grep -h "test result" "$wt/a.log" | awk '{s+=$4} END{print s}')
 # (b) demo with patch
 inject
-cargo test --offline -j 6 --lib seeded_ > "$wt/b.log" 2>&1; b=$?
+cargo test --offline -j 6 $FEAT --lib seeded_ > "$wt/b.log" 2>&1; b=$?
 bfail=$(grep -h "test result" "$wt/b.log" | head -1)
 cpass=$(grep -h "test result" "$wt/c.log" | head -1)
 ok=false; [ $a -eq 0 ] && [ "$apass" = "79" ] && [ $b -ne 0 ] && [ $c -eq 0 ] && ok=true
